@@ -712,10 +712,12 @@ func genFields(repo string) (string, []string) {
 				continue
 			}
 			recv := x.Recv.List[0].Names[0].Name
-			ast.Inspect(x.Body, func(n ast.Node) bool {
-				as, ok := n.(*ast.AssignStmt)
+			// only unconditional assignments at the top level of the function body count: a field restored under a
+			// condition is not restored
+			for _, st := range x.Body.List {
+				as, ok := st.(*ast.AssignStmt)
 				if !ok || as.Tok != token.ASSIGN || len(as.Lhs) != 1 {
-					return true
+					continue
 				}
 				l, ok1 := as.Lhs[0].(*ast.SelectorExpr)
 				r, ok2 := as.Rhs[0].(*ast.SelectorExpr)
@@ -724,8 +726,7 @@ func genFields(repo string) (string, []string) {
 						restored = append(restored, l.Sel.Name)
 					}
 				}
-				return true
-			})
+			}
 		}
 	}
 	sort.Strings(serialised)
